@@ -3,7 +3,8 @@ from vlib.framework import PUnit, LUnit, BUnit
 from bounded import b_coords as B
 from contracts import build_system as BS
 
-P_UNITS = [PUnit("density-box", [BS.BOX], BS.REG)]
+P_UNITS = [PUnit("density-box", [BS.BOX], BS.REG),
+           PUnit("molecules-in-topology-order", [BS.TO_SYSTEM], BS.REG)]
 
 
 def build(tier, seed):
